@@ -852,8 +852,14 @@ def script(draw, cfg=Cfg()):
     if cfg.params:
         pn = ident(for_param=True) if not cfg.names else st.sampled_from([n for n in cfg.names if not keyword.iskeyword(n)])
         if cfg.tdm:
-            pn = pn.filter(lambda n: not (n[0] == "p" and n[1:].isdigit()))
+            # the names the p-array pool below may declare stay free for the arrays
+            pn = pn.filter(lambda n: n not in ("p0", "p1", "p12"))
         ctx.params = draw(st.lists(pn, min_size=1, max_size=4 if not cfg.names else 2, unique=True))
+        if cfg.tdm and not cfg.names and draw(st.integers(0, 2)) == 0:
+            # free parameters spelt like p-arrays ({p3}); no array of that name is ever declared
+            extra = draw(st.sampled_from(["p2", "p3", "p7", "p23", "p05"]))
+            if extra not in ctx.params:
+                ctx.params.insert(draw(st.integers(0, len(ctx.params))), extra)
         if not cfg.names and not cfg.tdm and draw(st.integers(0, 3)) == 0:
             # a name and the same name with an underscore suffix (g / g_max, theta / theta_1)
             base = ctx.params[0]
